@@ -32,7 +32,7 @@ CONFIG = {
     'quick': {'shards': 16, 'cases': 4, 'timeout': 900, 'floor': 30},
     'thorough': {'shards': 32, 'cases': 60, 'timeout': 3400, 'floor': 900},
 }
-REQUIRED = ['contract_acquire', 'acq_LCBSC', 'acq_MaxVar', 'acq_RandMaxVar_metropolis', 'acq_RandMaxVar_nuts', 'acq_ExpIntVar', 'acq_UniformAcquisition',
+REQUIRED = ['bounds_dict_not_in_parameter_order', 'contract_acquire', 'acq_LCBSC', 'acq_MaxVar', 'acq_RandMaxVar_metropolis', 'acq_RandMaxVar_nuts', 'acq_ExpIntVar', 'acq_UniformAcquisition',
             'acq_gradient_checked', 'e2e_runs', 'e2e_scheduled_runs', 'e2e_evidence_compared', 'e2e_acquired_points_checked', 'noise_dict', 'noise_scalar',
             'prior_wider_than_bounds', 'prior_inside_bounds', 'init_precomputed', 'init_zero', 'init_count']
 
@@ -122,7 +122,8 @@ def run_direct(ctx, case):
     names = ['p%d' % i for i in range(d)]
     lo = rs.uniform(-2, 0, d)
     hi = lo + rs.uniform(1, 3, d)
-    bounds = {n: (float(lo[i]), float(hi[i])) for i, n in enumerate(names)}
+    # the bounds dictionary is written in an arbitrary key order (a dict has no parameter order of its own)
+    bounds = {names[i]: (float(lo[i]), float(hi[i])) for i in rs.permutation(d)}
     m = elfi.ElfiModel(name='m')
     _priors(elfi, m, names, lo, hi, case['prior'])
     ctx.event({'wider': 'prior_wider_than_bounds', 'inside': 'prior_inside_bounds', 'equal': 'prior_equal_bounds'}[case['prior']])
@@ -209,10 +210,12 @@ def _run_bo(ctx, client, cfg, mpb):
         r = np.random.RandomState(init['seed'])
         pre = {'a': r.uniform(0, 2, init['n']), 'b': r.uniform(-1, 1, init['n']), 'd': r.rand(init['n'])}
         init = pre
-    kw = dict(bounds=B, batch_size=cfg['bs'], seed=cfg['seed'], max_parallel_batches=mpb, batches_per_acquisition=cfg['bpa'],
+    Bx = dict(reversed(list(B.items()))) if cfg['seed'] % 2 else dict(B)      # key order of the user's bounds dict varies
+    ctx.event('bounds_dict_not_in_parameter_order', bool(cfg['seed'] % 2))
+    kw = dict(bounds=Bx, batch_size=cfg['bs'], seed=cfg['seed'], max_parallel_batches=mpb, batches_per_acquisition=cfg['bpa'],
               acq_noise_var=cfg['noise'], update_interval=cfg['ui'], initial_evidence=init)
     if cfg['acq'] != 'default':
-        gp = GPyRegression(['a', 'b'], bounds=B)
+        gp = GPyRegression(['a', 'b'], bounds=Bx)
         prior = ModelPrior(m)
         cls = {'maxvar': MaxVar, 'randmaxvar': RandMaxVar, 'uniform': UniformAcquisition}[cfg['acq']]
         akw = dict(sampler='metropolis', n_samples=40) if cfg['acq'] == 'randmaxvar' else {}
